@@ -1646,157 +1646,157 @@ func unwrapForwarder(fn *ssa.Function) *ssa.Function {
 func c16Revert(c *core.Ctx) {
 	const vm = "chain/vm"
 	entryNames := []string{"Call", "CallCode", "DelegateCall", "StaticCall", "Create", "TransferAssetTx"}
-		runObj := c.FuncObj(vm + ".run")
-		snapM := c.Method(vm+".AccountManager", "Snapshot")
-		revM := c.Method(vm+".AccountManager", "RevertToSnapshot")
-		transferF := c.FieldVar(vm+".Context", "Transfer")
-		writeObjs, _ := accountWriteMethods(c)
-		n := 0
-		for _, name := range entryNames {
-			fn := c.Fn(vm + ".EVM." + name)
-			rc := core.CallsIn(fn, runObj)
-			sn := core.CallsIn(fn, snapM)
-			if len(rc) != 1 || len(sn) != 1 {
-				c.Check("EVM."+name+":snapshot/run-sites", "anchor-resolves", false, fn.Pos(), "EVM.%s must take exactly one snapshot and call run once (%d/%d found)", name, len(sn), len(rc))
-				continue
-			}
-			R, S := rc[0], sn[0]
-			snapVals := core.Derived(S.Value())
-			// snapshot precedes run and every write of the function
-			okOrder := core.Dominates(S, R)
-			for _, ci := range core.AllCalls(fn) {
-				w := calleeField(ci) == transferF
-				o := core.CalleeObj(ci)
-				for _, wo := range writeObjs {
-					if core.SameFamily(o, wo) {
-						w = true
-					}
-				}
-				if sf := core.StaticFn(ci); sf != nil && sf == c.Fn(vm+".EVM.AddEvent") {
+	runObj := c.FuncObj(vm + ".run")
+	snapM := c.Method(vm+".AccountManager", "Snapshot")
+	revM := c.Method(vm+".AccountManager", "RevertToSnapshot")
+	transferF := c.FieldVar(vm+".Context", "Transfer")
+	writeObjs, _ := accountWriteMethods(c)
+	n := 0
+	for _, name := range entryNames {
+		fn := c.Fn(vm + ".EVM." + name)
+		rc := core.CallsIn(fn, runObj)
+		sn := core.CallsIn(fn, snapM)
+		if len(rc) != 1 || len(sn) != 1 {
+			c.Check("EVM."+name+":snapshot/run-sites", "anchor-resolves", false, fn.Pos(), "EVM.%s must take exactly one snapshot and call run once (%d/%d found)", name, len(sn), len(rc))
+			continue
+		}
+		R, S := rc[0], sn[0]
+		snapVals := core.Derived(S.Value())
+		// snapshot precedes run and every write of the function
+		okOrder := core.Dominates(S, R)
+		for _, ci := range core.AllCalls(fn) {
+			w := calleeField(ci) == transferF
+			o := core.CalleeObj(ci)
+			for _, wo := range writeObjs {
+				if core.SameFamily(o, wo) {
 					w = true
 				}
-				if w && !core.Dominates(S, ci) {
-					okOrder = false
-				}
 			}
-			c.Check("EVM."+name+":Snapshot≺writes,run", "order", okOrder, S.Pos(), "the snapshot must be taken before the first state write and before run on every path")
+			if sf := core.StaticFn(ci); sf != nil && sf == c.Fn(vm+".EVM.AddEvent") {
+				w = true
+			}
+			if w && !core.Dominates(S, ci) {
+				okOrder = false
+			}
+		}
+		c.Check("EVM."+name+":Snapshot≺writes,run", "order", okOrder, S.Pos(), "the snapshot must be taken before the first state write and before run on every path")
 
-			// path-sensitive: an error outcome after run reaches no return without RevertToSnapshot(snapshot)
-			var bad []string
-			nRet := 0
-			hooks := core.PathHooks{
-				Instr: func(in ssa.Instruction, st *core.PathState) bool {
-					ci, ok := in.(ssa.CallInstruction)
-					if !ok {
-						return true
-					}
-					if _, isDefer := in.(*ssa.Defer); isDefer {
-						return true
-					}
-					if revertsTo(ci, revM, func(v ssa.Value) bool { return snapVals[st.Canon(v)] }, 0) {
-						return false // path satisfied
-					}
-					// helper form: h(snapshot, err) reverts when err is non-nil; a return of that very error afterwards is covered
-					if sv, ev, is := condRevertCall(ci, revM); is && snapVals[st.Canon(sv)] {
-						st.Mark(valKey(st.Canon(ev)))
-					}
+		// path-sensitive: an error outcome after run reaches no return without RevertToSnapshot(snapshot)
+		var bad []string
+		nRet := 0
+		hooks := core.PathHooks{
+			Instr: func(in ssa.Instruction, st *core.PathState) bool {
+				ci, ok := in.(ssa.CallInstruction)
+				if !ok {
 					return true
-				},
-				Return: func(r *ssa.Return, st *core.PathState) {
-					nRet++
-					res := fn.Signature.Results()
-					for i := 0; i < res.Len(); i++ {
-						if !core.IsErrorType(res.At(i).Type()) {
-							continue
-						}
-						if st.IsNil(r.Results[i]) != core.Yes && !st.Marked(valKey(st.Canon(r.Results[i]))) {
-							bad = append(bad, c.Pos(r.Pos()))
-						}
+				}
+				if _, isDefer := in.(*ssa.Defer); isDefer {
+					return true
+				}
+				if revertsTo(ci, revM, func(v ssa.Value) bool { return snapVals[st.Canon(v)] }, 0) {
+					return false // path satisfied
+				}
+				// helper form: h(snapshot, err) reverts when err is non-nil; a return of that very error afterwards is covered
+				if sv, ev, is := condRevertCall(ci, revM); is && snapVals[st.Canon(sv)] {
+					st.Mark(valKey(st.Canon(ev)))
+				}
+				return true
+			},
+			Return: func(r *ssa.Return, st *core.PathState) {
+				nRet++
+				res := fn.Signature.Results()
+				for i := 0; i < res.Len(); i++ {
+					if !core.IsErrorType(res.At(i).Type()) {
+						continue
 					}
-				},
-			}
-			_, complete := core.ExplorePaths(R.Block(), R, nil, hooks)
-			if !complete {
-				c.Undecided("EVM."+name+":error⇒RevertToSnapshot", "pairing", R.Pos(), "the region after run contains a loop; the pairing is not decided")
-				continue
-			}
-			if c.Check("EVM."+name+":error⇒RevertToSnapshot", "pairing", len(bad) == 0 && nRet > 0, R.Pos(), "a return with a (possibly) non-nil error is reachable after run without RevertToSnapshot(snapshot): %s", strings.Join(uniq(bad), ", ")) {
-				n++
-			}
+					if st.IsNil(r.Results[i]) != core.Yes && !st.Marked(valKey(st.Canon(r.Results[i]))) {
+						bad = append(bad, c.Pos(r.Pos()))
+					}
+				}
+			},
 		}
-		c.Floor("revert/entry-points-paired", n, 6)
+		_, complete := core.ExplorePaths(R.Block(), R, nil, hooks)
+		if !complete {
+			c.Undecided("EVM."+name+":error⇒RevertToSnapshot", "pairing", R.Pos(), "the region after run contains a loop; the pairing is not decided")
+			continue
+		}
+		if c.Check("EVM."+name+":error⇒RevertToSnapshot", "pairing", len(bad) == 0 && nRet > 0, R.Pos(), "a return with a (possibly) non-nil error is reachable after run without RevertToSnapshot(snapshot): %s", strings.Join(uniq(bad), ", ")) {
+			n++
+		}
+	}
+	c.Floor("revert/entry-points-paired", n, 6)
 
-		// StaticCall: readOnly
-		ro := c.FieldVar(vm+".Interpreter", "readOnly")
-		sc := c.Fn(vm + ".EVM.StaticCall")
-		rc := core.CallsIn(sc, runObj)
-		var set []*ssa.Store
-		clears := 0
-		for _, st := range fieldStoresIn(sc, ro) {
-			if b, ok := core.BoolConst(st.Val); ok && b {
-				set = append(set, st)
-			} else {
-				clears++
+	// StaticCall: readOnly
+	ro := c.FieldVar(vm+".Interpreter", "readOnly")
+	sc := c.Fn(vm + ".EVM.StaticCall")
+	rc := core.CallsIn(sc, runObj)
+	var set []*ssa.Store
+	clears := 0
+	for _, st := range fieldStoresIn(sc, ro) {
+		if b, ok := core.BoolConst(st.Val); ok && b {
+			set = append(set, st)
+		} else {
+			clears++
+		}
+	}
+	ok := len(rc) == 1 && len(set) >= 1 && clears == 0
+	if ok {
+		// run is unreachable unless the flag was found set or is set now
+		cut := map[[2]*ssa.BasicBlock]bool{}
+		for _, v := range fieldLoadsOf(sc, ro) {
+			for _, t := range core.TestsOf(v, core.IsTrue) {
+				cut[[2]*ssa.BasicBlock{t.If.Block(), t.Fail}] = true // Fail = successor taken when readOnly is already true
 			}
 		}
-		ok := len(rc) == 1 && len(set) >= 1 && clears == 0
-		if ok {
-			// run is unreachable unless the flag was found set or is set now
-			cut := map[[2]*ssa.BasicBlock]bool{}
-			for _, v := range fieldLoadsOf(sc, ro) {
-				for _, t := range core.TestsOf(v, core.IsTrue) {
-					cut[[2]*ssa.BasicBlock{t.If.Block(), t.Fail}] = true // Fail = successor taken when readOnly is already true
-				}
-			}
-			avoid := map[*ssa.BasicBlock]bool{}
-			for _, s := range set {
-				avoid[s.Block()] = true
-				if !core.ReachableAfter(s, rc[0]) {
-					ok = false
-				}
-			}
-			if reachCut([]*ssa.BasicBlock{sc.Blocks[0]}, avoid, cut)[rc[0].Block()] {
+		avoid := map[*ssa.BasicBlock]bool{}
+		for _, s := range set {
+			avoid[s.Block()] = true
+			if !core.ReachableAfter(s, rc[0]) {
 				ok = false
 			}
 		}
-		c.Check("StaticCall:readOnly-set≺run", "guarded-action", ok, sc.Pos(), "on every path to run the interpreter's readOnly flag is true (found set, or set by StaticCall) and StaticCall never clears it inline")
-		// restore: a deferred closure clearing the flag, registered only where the flag was set by this frame
-		okR := false
-		for _, b := range sc.Blocks {
-			for _, in := range b.Instrs {
-				d, isD := in.(*ssa.Defer)
-				if !isD {
-					continue
+		if reachCut([]*ssa.BasicBlock{sc.Blocks[0]}, avoid, cut)[rc[0].Block()] {
+			ok = false
+		}
+	}
+	c.Check("StaticCall:readOnly-set≺run", "guarded-action", ok, sc.Pos(), "on every path to run the interpreter's readOnly flag is true (found set, or set by StaticCall) and StaticCall never clears it inline")
+	// restore: a deferred closure clearing the flag, registered only where the flag was set by this frame
+	okR := false
+	for _, b := range sc.Blocks {
+		for _, in := range b.Instrs {
+			d, isD := in.(*ssa.Defer)
+			if !isD {
+				continue
+			}
+			mc, isMC := d.Call.Value.(*ssa.MakeClosure)
+			if !isMC {
+				continue
+			}
+			cf := mc.Fn.(*ssa.Function)
+			sts := fieldStoresIn(cf, ro)
+			if len(sts) != 1 {
+				continue
+			}
+			if bv, isC := core.BoolConst(sts[0].Val); !isC || bv {
+				continue
+			}
+			// the reset must be registered only where the flag was found clear: with the "flag is clear" edges of the tests
+			// on the flag removed, the defer is unreachable
+			cutClear := map[[2]*ssa.BasicBlock]bool{}
+			for _, v := range fieldLoadsOf(sc, ro) {
+				for _, t := range core.TestsOf(v, core.IsTrue) {
+					cutClear[[2]*ssa.BasicBlock{t.If.Block(), t.OK}] = true
 				}
-				mc, isMC := d.Call.Value.(*ssa.MakeClosure)
-				if !isMC {
-					continue
-				}
-				cf := mc.Fn.(*ssa.Function)
-				sts := fieldStoresIn(cf, ro)
-				if len(sts) != 1 {
-					continue
-				}
-				if bv, isC := core.BoolConst(sts[0].Val); !isC || bv {
-					continue
-				}
-				// the reset must be registered only where the flag was found clear: with the "flag is clear" edges of the tests
-				// on the flag removed, the defer is unreachable
-				cutClear := map[[2]*ssa.BasicBlock]bool{}
-				for _, v := range fieldLoadsOf(sc, ro) {
-					for _, t := range core.TestsOf(v, core.IsTrue) {
-						cutClear[[2]*ssa.BasicBlock{t.If.Block(), t.OK}] = true
-					}
-				}
-				onlyWhenClear := len(cutClear) > 0 && !reachCut([]*ssa.BasicBlock{sc.Blocks[0]}, nil, cutClear)[d.Block()]
-				for _, s := range set {
-					// registered straight after the set (same block), hence exactly when this frame set the flag
-					if s.Block() == d.Block() && core.Dominates(s, d) && onlyWhenClear {
-						okR = true
-					}
+			}
+			onlyWhenClear := len(cutClear) > 0 && !reachCut([]*ssa.BasicBlock{sc.Blocks[0]}, nil, cutClear)[d.Block()]
+			for _, s := range set {
+				// registered straight after the set (same block), hence exactly when this frame set the flag
+				if s.Block() == d.Block() && core.Dominates(s, d) && onlyWhenClear {
+					okR = true
 				}
 			}
 		}
-		c.Check("StaticCall:readOnly-restored-iff-set", "pairing", okR, sc.Pos(), "the frame that sets readOnly registers a deferred reset in the same block; a nested static call (flag already set) must not reset it")
-		closedFieldWriters(c, "Interpreter.readOnly", ro, "(*"+vm+".EVM).StaticCall", "(*"+vm+".EVM).StaticCall$1")
+	}
+	c.Check("StaticCall:readOnly-restored-iff-set", "pairing", okR, sc.Pos(), "the frame that sets readOnly registers a deferred reset in the same block; a nested static call (flag already set) must not reset it")
+	closedFieldWriters(c, "Interpreter.readOnly", ro, "(*"+vm+".EVM).StaticCall", "(*"+vm+".EVM).StaticCall$1")
 }
